@@ -241,6 +241,9 @@ pub struct World {
     pub statements_by_step: Vec<(usize, Vec<String>)>,
     pub liveness_requested: bool,
     pub db_faults_counted: usize,
+    /// (party, entity) pairs for which the party won no lottery
+    pub lost_lotteries: std::collections::BTreeSet<(usize, Entity)>,
+    pub quiescence_register_attempts: BTreeMap<(usize, u64), u32>,
 }
 
 /// State of the statement-level fault hook (C15).
@@ -358,6 +361,8 @@ impl World {
             statements_by_step: vec![],
             liveness_requested: false,
             db_faults_counted: 0,
+            lost_lotteries: Default::default(),
+            quiescence_register_attempts: BTreeMap::new(),
         }
     }
 
@@ -415,6 +420,18 @@ impl World {
         v.immutable = self.immutable;
         v.block = self.block;
         v.stakes = stakes;
+    }
+
+    /// A party signs an open message once; it signs again only if its message was lost.
+    pub fn can_sign(&self, party: usize, entity: &Entity) -> bool {
+        match self.signed.get(&(party, entity.clone())) {
+            None => true,
+            Some(id) => {
+                !self.lost_lotteries.contains(&(party, entity.clone()))
+                    && !self.inflight.contains_key(id)
+                    && !self.deliveries.iter().any(|d| d.msg.id == *id)
+            }
+        }
     }
 
     pub fn view_epoch(&self) -> u64 {
@@ -593,6 +610,9 @@ impl World {
                     },
                 );
                 *self.registered_sent.entry((*party, recording_epoch)).or_default() += 1;
+                if *id > 1_000_000 {
+                    *self.quiescence_register_attempts.entry((*party, recording_epoch)).or_default() += 1;
+                }
                 ok(format!("party {party} registers for epoch {recording_epoch} (key #{key_index})"))
             }
             Event::Sign { id, party, early } => self.apply_sign(*id, *party, *early),
@@ -783,7 +803,7 @@ impl World {
             };
             (om.entity, pm.to_message())
         };
-        if self.signed.contains_key(&(party, entity.clone())) {
+        if !self.can_sign(party, &entity) {
             return skip("already signed");
         }
         let recording_epoch = epoch - 1;
@@ -802,7 +822,8 @@ impl World {
         let sig = match key.sign(&current, &params, &message) {
             Ok(Some(sig)) => sig,
             Ok(None) => {
-                self.signed.insert((party, entity), id);
+                self.signed.insert((party, entity.clone()), id);
+                self.lost_lotteries.insert((party, entity));
                 self.hit("probe_signer_lost_all_lotteries");
                 return Applied { enabled: true, note: "lost all lotteries".into() };
             }
